@@ -18,7 +18,8 @@
       finite list of naturals [ds] ("draws") that is threaded through the whole launch.  When the
       list is exhausted the outcome is [OutOfDraws].  The theorems quantify over every draw list.
       That the real loop terminates with probability 1 is NOT modelled (with an adversarial source
-      it does not terminate; see [C08_can_finish] for what is proved instead);
+      it does not terminate; see [C08_can_finish] for what is proved instead).  [Int()] returns a
+      non-negative int (goutils LockedRand.Int is Int63()), so a draw is a natural number;
     - every place where the Go code dereferences a pointer, indexes a slice or divides is a CHECKED
       operation here and yields the outcome [Crash] when the Go code would panic:
         regions.Region / regions.Count        ([regs = None])
@@ -264,7 +265,7 @@ Definition validate_request (q : request) : bool :=
 Definition go_sized (shards : list shard_def) : Prop :=
   Forall (fun sd => nlen (sd_members sd) < two63) shards.
 
-(** what server.validateChange admits: non-empty, pairwise distinct, non-zero member ids, non-empty app name *)
+(** what server.validateChange accepts: non-empty, pairwise distinct, non-zero member ids, non-empty app name *)
 Definition wf_shard (sd : shard_def) : Prop :=
   sd_members sd <> [] /\ NoDup (sd_members sd) /\ ~ In 0 (sd_members sd) /\ sd_app sd <> 0.
 
